@@ -1243,7 +1243,9 @@ class PDFCIDFont(PDFFont):
             if hasattr(spec_encoding, "name"):
                 cmap_name = literal_name(spec["Encoding"])
             elif isinstance(spec_encoding, (dict, PDFStream)):
-                cmap_name = literal_name(spec_encoding["CMapName"])
+                # the entry of the CMap stream dictionary may itself be an
+                # indirect reference to the name
+                cmap_name = literal_name(resolve1(spec_encoding["CMapName"]))
             elif strict:
                 raise PDFFontError("Encoding is neither a name nor a CMap stream")
         except KeyError:
